@@ -1,4 +1,5 @@
 import Proofs.SymbolTable
+import HclModel.Gen.RecvWrites
 /-!
 # C17 — a parsed configuration can be evaluated concurrently (isolation of the splat symbol table)
 
@@ -36,3 +37,33 @@ example : Interleaving [[.set 1 10, .get 1, .clear 1], [.set 2 20, .get 2, .clea
   intro p hp; simp at hp; rcases hp with rfl | rfl <;> rfl
 
 end HclModel.Conc
+
+/-! ## what evaluation-time code stores in the shared configuration
+
+`Gen.recvWrites` lists every statement that writes through a method's receiver in the types a parsed
+configuration is made of (hclsyntax expressions and bodies, JSON bodies and expressions, merged bodies,
+traversals, dynblock's wrappers, hcldec's specs), regenerated from the Go AST on every check. -/
+namespace HclModel.RecvWrites
+
+/-- the state the property text names: the splat symbol's per-context table (under `valuesLock`), and the scope
+    stack of the walker that `Variables()` creates afresh for every call -/
+def allowedWrites : Allowed :=
+  [("*AnonSymbolExpr", "setValue", "values"), ("*AnonSymbolExpr", "clearValue", "values"),
+   ("*variablesWalker", "Enter", "localScopes"), ("*variablesWalker", "Exit", "localScopes")]
+
+theorem recv_writes_checked : allAllowed allowedWrites Gen.recvWrites = true := by decide +kernel
+
+/-- No method of a shared syntax-tree node, body, traversal, wrapper or spec stores anything in its receiver,
+    except the anonymous symbol's table operations that `Conc/SymbolTable` models (and the per-call walker):
+    there is no other per-evaluation state inside the tree for goroutines to share. -/
+theorem only_the_symbol_table_is_written (s : Site) (h : s ∈ Gen.recvWrites) : s.key ∈ allowedWrites :=
+  (allAllowed_iff allowedWrites Gen.recvWrites).mp recv_writes_checked s h
+
+/-- non-vacuity: the table does contain the symbol table's writes -/
+example : (Gen.recvWrites.filter fun s => s.type == "*AnonSymbolExpr").length = 3 := by decide +kernel
+
+/-- the check is not trivially true: a memo stored in a node by `Value` is rejected -/
+example : allAllowed allowedWrites [⟨"hclsyntax/expression.go", "*SplatExpr", "Value", "Item.resultTys", "assign"⟩] = false := by
+  decide +kernel
+
+end HclModel.RecvWrites
